@@ -209,10 +209,11 @@ def rule_cachefill(ctx, rule='C11.CACHES'):
 
 
 def run(ctx):
+    from . import c12
     ctx.rule('C11.TRUNCATE', lambda: rule_truncate(ctx), 2)
     ctx.rule('C11.EXTEND', lambda: rule_extend(ctx), 5)
     ctx.rule('C11.RANGE', lambda: rule_range(ctx), 4)
+    ctx.rule('C11.CACHE', lambda: c12.rule_cache_commit(ctx, 'C11.CACHE'), 4)
     ctx.rule('C11.CACHES', lambda: rule_cachefill(ctx) + c10.rule_signal(ctx, 'C11.CACHES'), 9)
     ctx.rule('C11.BYHEIGHT', lambda: c10.rule_byheight(ctx, 'C11.BYHEIGHT'), 2)
-    from . import c12
     ctx.rule('C11.TSCFORWARD', lambda: c12.rule_tscforward(ctx, 'C11.TSCFORWARD'), 5)
